@@ -1,6 +1,7 @@
 package lib
 
 import (
+	"encoding/json"
 	"github.com/verily-src/fhirpath-go/fhirpath"
 	"github.com/verily-src/fhirpath-go/fhirpath/internal/expr"
 	"github.com/verily-src/fhirpath-go/fhirpath/internal/funcs/impl"
@@ -54,4 +55,42 @@ func init() {
 		ErrSentinel{impl.ErrWrongArity, "WrongArity"},
 		ErrSentinel{system.ErrTypeMismatch, "TypeMismatch"},
 	)
+}
+
+// EvalTwice compiles src once and evaluates the SAME compiled expression twice (eopts builds fresh options for
+// each evaluation). The second outcome must equal the first when the compiled expression is immutable (C03/C04).
+func EvalTwice(f *Forest, src string, res []fhir.Resource, copts []fhirpath.CompileOption, eopts func() []fhirpath.EvaluateOption) (Outcome, Outcome) {
+	var out1, out2 Outcome
+	rep := SafeRetry(func() {
+		out1, out2 = nil, nil
+		e, err := fhirpath.Compile(src, copts...)
+		if err != nil {
+			out1 = ErrOutcome("cerr", err)
+			out2 = out1
+			return
+		}
+		run := func() Outcome {
+			c, err := e.Evaluate(res, eopts()...)
+			if err != nil {
+				return ErrOutcome("err", err)
+			}
+			return OkOutcome(f.ProjectCollection(c))
+		}
+		out1 = run()
+		out2 = run()
+	})
+	if rep.Timeout {
+		return TimeoutOutcome(), TimeoutOutcome()
+	}
+	if rep.Panic != "" {
+		return PanicOutcome(rep), PanicOutcome(rep)
+	}
+	return out1, out2
+}
+
+// SameOutcome compares two projected outcomes structurally (through their JSON form).
+func SameOutcome(a, b Outcome) bool {
+	ja, _ := json.Marshal(a)
+	jb, _ := json.Marshal(b)
+	return string(ja) == string(jb)
 }
